@@ -1,6 +1,6 @@
 ------------------------------ MODULE MC_AmSim ------------------------------
 EXTENDS AmSim
-S1 == << <<"set", "a", 1>>, <<"get", "x">>, <<"get", "y">>, <<"set", "b", 1>>, <<"get", "x">>, <<"get", "y">>,
+S1 == << <<"set", "a", 1>>, <<"get", "x">>, <<"get", "y">>, <<"get", "xy">>, <<"set", "b", 1>>, <<"get", "x">>, <<"get", "y">>, <<"get", "xy">>,
          <<"tick">>, <<"get", "r">>, <<"get", "q">>, <<"get", "rq">>, <<"get", "mem">>, <<"time">>, <<"set", "a", 0>>, <<"get", "y">>, <<"tick">>, <<"get", "r">>,
          <<"get", "mem">>, <<"delay", 7>>, <<"time">>, <<"get", "r">>, <<"get", "q">>, <<"get", "rq">>, <<"get", "mem">>, <<"get", "y">> >>
 S2 == << <<"delay", 3>>, <<"set", "b", 1>>, <<"get", "y">>, <<"delay", 12>>, <<"time">>, <<"get", "r">>,
@@ -10,7 +10,7 @@ S3 == << <<"tick">>, <<"tick">>, <<"set", "a", 1>>, <<"delay", 5>>, <<"get", "r"
 (* two testbenches: the first writes right after the edge, the second reads at the same instant and must see it *)
 T1 == << <<"set", "a", 1>>, <<"tick">>, <<"get", "r">>, <<"set", "b", 1>>, <<"tick">>, <<"get", "q">>, <<"get", "mem">>, <<"set", "a", 0>>,
          <<"delay", 10>>, <<"set", "b", 0>>, <<"get", "y">> >>
-T2 == << <<"tick">>, <<"get", "y">>, <<"get", "x">>, <<"tick">>, <<"get", "y">>, <<"set", "a", 1>>, <<"delay", 10>>, <<"get", "y">>,
+T2 == << <<"tick">>, <<"get", "y">>, <<"get", "x">>, <<"get", "xy">>, <<"tick">>, <<"get", "y">>, <<"set", "a", 1>>, <<"get", "xy">>, <<"delay", 10>>, <<"get", "y">>,
          <<"time">>, <<"get", "q">>, <<"get", "rq">> >>
 (* waiting for changes / edges of signals that cannot glitch (x: one comb stage from the inputs; r, q: registers) *)
 T3 == << <<"changed", "r">>, <<"get", "q">>, <<"time">>, <<"edge", "q", 1>>, <<"time">>, <<"get", "r">>, <<"set", "b", 1>>,
@@ -22,7 +22,7 @@ T5 == << <<"changed", "x">>, <<"time">>, <<"get", "y">>, <<"edge", "x", 0>>, <<"
 (* them): the order must be T6, T7, T8, so T8 sees T7's write                                                    *)
 T6 == << <<"delay", 7>>, <<"set", "a", 1>>, <<"get", "x">> >>
 T7 == << <<"changed", "x">>, <<"set", "b", 1>>, <<"get", "y">> >>
-T8 == << <<"delay", 7>>, <<"get", "y">>, <<"get", "x">>, <<"tick">>, <<"get", "rq">> >>
+T8 == << <<"delay", 7>>, <<"get", "y">>, <<"get", "x">>, <<"get", "xy">>, <<"tick">>, <<"get", "rq">> >>
 (* tick().repeat(n) and tick().until(condition) *)
 T9 == << <<"set", "a", 1>>, <<"repeat", 2>>, <<"time">>, <<"get", "rq">>, <<"until", "q">>, <<"time">>, <<"get", "r">>, <<"set", "b", 1>>,
          <<"until", "y">>, <<"time">>, <<"repeat", 1>>, <<"get", "mem">> >>
